@@ -56,7 +56,8 @@ Definition cache_digest (login pw : pystr) (salt : Z) : dval := DHash salt (logi
    makes the key determine (login, password) -- Proofs/LoginCacheDict.v, failed_key_inj. *)
 Definition failed_key (salt : Z) (login pw : pystr) : dval := DKey login salt (login ++ pw).
 
-Inductive exn := KeyError | OtherError.   (* OtherError: never produced by the model; lets the harness state "some other exception" *)
+Inductive exn := KeyError | BackendError | OtherError.   (* BackendError: whatever self._login raised, propagated *)
+(* OtherError: never produced by the model; lets the harness state "some other exception" *)
 Inductive res (A : Type) := Ok (a : A) | Err (e : exn).
 Arguments Ok {A} a.
 Arguments Err {A} e.
@@ -246,6 +247,18 @@ Definition login_body (v : variant) (cfg : config) (bk : pystr -> pystr -> pystr
     | Ok (lo, fd) => after_sweep v cfg bk now (succ c) fd (v_login lo) (v_digest lo) pw
     end.
 
+(* A login during which the back-end RAISES (connection error, htpasswd file missing for a moment, ...): `login` has no
+   try/except around `self._login`, the exception propagates and nothing is recorded -- neither as a success nor as a
+   rejection.  Everything before the call has happened (housekeeping, deletion of an expired successful entry).
+   Defined through the run with a back-end that rejects: if the back-end was reached, drop the failed entry that run
+   appended (it is the last one: the key was absent, else the failed look-up would have answered) and raise. *)
+Definition login_body_fault (v : variant) (cfg : config) (now : Z) (c : cache) (login0 pw : pystr) : lresult :=
+  let r := login_body v cfg (fun _ _ => []) now c login0 pw in
+  if r_called r then
+    mkResult (if c_cache cfg then mkCache (succ (r_cache r)) (removelast (failed (r_cache r))) else r_cache r)
+             (ORaise BackendError) true
+  else r.
+
 (* ---------------------------------------------------------------- histories *)
 Section History.
   Context {B : Type} (backend : B -> pystr -> pystr -> pystr).
@@ -308,19 +321,26 @@ Record cobs := mkCobs {
   co_out : outcome; co_called : bool; co_nsucc : N; co_nfailed : N
 }.
 
-Definition cstep (v : variant) (cfg : config) (s : @state creds) (e : @event creds)
+(* events of the correspondence runs: those of the theorems, plus an attempt during which the back-end raises *)
+Inductive cevent := CE (e : @event creds) | CFault (l p : pystr).
+
+Definition cobs_of (r : lresult) : cobs :=
+  mkCobs (r_out r) (r_called r) (N.of_nat (List.length (succ (r_cache r)))) (N.of_nat (List.length (failed (r_cache r)))).
+
+Definition cstep (v : variant) (cfg : config) (s : @state creds) (e : cevent)
   : @state creds * list cobs :=
   match e with
-  | Attempt l p =>
+  | CE (Attempt l p) =>
       let r := login_body v cfg (table_backend (s_bk s)) (s_now s) (s_cache s) l p in
-      (mkState (r_cache r) (s_now s) (s_bk s),
-       [mkCobs (r_out r) (r_called r) (N.of_nat (List.length (succ (r_cache r))))
-               (N.of_nat (List.length (failed (r_cache r))))])
-  | Tick dt => (mkState (s_cache s) (s_now s + dt) (s_bk s), [])
-  | Change b => (mkState (s_cache s) (s_now s) b, [])
+      (mkState (r_cache r) (s_now s) (s_bk s), [cobs_of r])
+  | CFault l p =>
+      let r := login_body_fault v cfg (s_now s) (s_cache s) l p in
+      (mkState (r_cache r) (s_now s) (s_bk s), [cobs_of r])
+  | CE (Tick dt) => (mkState (s_cache s) (s_now s + dt) (s_bk s), [])
+  | CE (Change b) => (mkState (s_cache s) (s_now s) b, [])
   end.
 
-Fixpoint crun (v : variant) (cfg : config) (s : @state creds) (h : list (@event creds))
+Fixpoint crun (v : variant) (cfg : config) (s : @state creds) (h : list cevent)
   : @state creds * list cobs :=
   match h with
   | [] => (s, [])
@@ -339,6 +359,7 @@ Definition outcome_eqb (a b : outcome) : bool :=
   | ORet u c, ORet u' c' => eqs u u' && Bool.eqb c c'
   | ORaise KeyError, ORaise KeyError => true
   | ORaise OtherError, ORaise OtherError => true
+  | ORaise BackendError, ORaise BackendError => true
   | _, _ => false
   end.
 
@@ -359,7 +380,7 @@ Definition fsnap_eqb (a b : dval * fentry) : bool :=
   dval_eqb (fst a) (fst b) && Z.eqb (fst (snd a)) (fst (snd b)) && eqs (snd (snd a)) (snd (snd b)).
 
 (* what the harness compares: observations per attempt + final contents of both dictionaries *)
-Definition ccase := (config * Z * creds * list (@event creds))%type.
+Definition ccase := (config * Z * creds * list cevent)%type.
 Definition cexpect := (list cobs * list (pystr * (dval * Z)) * list (dval * fentry))%type.
 
 Definition crun_case (v : variant) (c : ccase) : cexpect :=
